@@ -2,7 +2,7 @@
 From Coq Require Import ZArith List Bool Arith.
 From PlonkV Require Import Base.Fr Base.FrFacts Gates.Gate Gates.CS Gates.CSFacts
   Composer.State Composer.Components Composer.RangeFacts Curve.Jubjub Curve.JubjubFacts
-  Composer.PointComponents Composer.PointFacts Composer.FixedFacts.
+  Composer.PointComponents Composer.PointFacts Composer.FixedFacts Composer.FixedSpec.
 Import ListNotations.
 Local Open Scope fr_scope.
 
@@ -75,3 +75,41 @@ Check C14_canonical_sound : forall (PR : PrimeR) asg scalar base,
   asg W_ZERO = 0 -> block_sat (canonical_blk scalar base) asg ->
   (val (asg scalar) < 2 ^ 252 /\ val (asg scalar) < rj)%Z.
 Print Assumptions C14_canonical_sound.
+
+(* the model of append_fixed_base_signed_digits (the function compared with the real
+   code on every run) emits exactly these rows ... *)
+Theorem C14_mulgen_emits : forall jubjub g digits s,
+  length digits = 256%nat -> forallb digit_ok digits = true ->
+  let n := length (wits s) in
+  exists s', append_fixed_base_signed_digits jubjub g digits s
+             = (inr (fb_wx (n + 253) 256, fb_wy (n + 253) 256), s')
+          /\ rows s' = rows s ++ mulgen_rows jubjub g n.
+Proof. exact append_fixed_base_rows. Qed.
+Check C14_mulgen_emits : forall jubjub g digits s,
+  length digits = 256%nat -> forallb digit_ok digits = true ->
+  let n := length (wits s) in
+  exists s', append_fixed_base_signed_digits jubjub g digits s
+             = (inr (fb_wx (n + 253) 256, fb_wy (n + 253) 256), s')
+          /\ rows s' = rows s ++ mulgen_rows jubjub g n.
+Print Assumptions C14_mulgen_emits.
+
+(* ... and EVERY assignment satisfying them has a canonical scalar and returns the
+   signed-digit combination whose integer value is that scalar *)
+Theorem C14_mulgen_sound : forall (PR : PrimeR) (ND : NonSquareD) asg jubjub g n,
+  asg W_ZERO = 0 -> on_curve g ->
+  block_sat (mulgen_rows jubjub g n) asg ->
+  let base := (n + 253)%nat in
+  (val (asg jubjub) < rj)%Z /\
+  exists ds, length ds = 256%nat /\ Forall is_digit ds /\ firstn 3 ds = [0; 0; 0]%Z /\
+    sd_val 0 ds = val (asg jubjub) /\
+    (asg (fb_wx base 256), asg (fb_wy base 256)) = sd_point ed_id ds (rev (doublings 256 g)).
+Proof. exact @mulgen_sound. Qed.
+Check C14_mulgen_sound : forall (PR : PrimeR) (ND : NonSquareD) asg jubjub g n,
+  asg W_ZERO = 0 -> on_curve g ->
+  block_sat (mulgen_rows jubjub g n) asg ->
+  let base := (n + 253)%nat in
+  (val (asg jubjub) < rj)%Z /\
+  exists ds, length ds = 256%nat /\ Forall is_digit ds /\ firstn 3 ds = [0; 0; 0]%Z /\
+    sd_val 0 ds = val (asg jubjub) /\
+    (asg (fb_wx base 256), asg (fb_wy base 256)) = sd_point ed_id ds (rev (doublings 256 g)).
+Print Assumptions C14_mulgen_sound.
